@@ -12,10 +12,10 @@ from .c17 import TEXTS
 
 INFO = {
     "bounds": {
-        "quick": "trees T15, T07, T06, T09 and menuconfig fixtures x initial file in {absent, written by the tool for a (sampled) user state, hand-edited: default markers stripped / unknown entry added / duplicate entry added}: every sequence of 2 UI actions (toggle, typed value, choice member select, reset option / menu, load other file, save, navigation), first action fixed per job; after the start and after every action: if needs_save() is false the file equals what saving would write (tool-written files: byte-identical; hand-edited files: same values and same user/default status when loaded fresh); right after a save and right after loading a tool-written file needs_save() is false",
+        "quick": "trees T15, T07, T06, T09 and menuconfig fixtures x initial file in {absent, written by the tool for a (sampled) user state, hand-edited: default markers stripped / unknown entry added / duplicate entry added / (tree T13b) an entry given through a deprecated name}: every sequence of 2 UI actions (toggle, typed value, choice member select, reset option / menu, load other file, save, navigation), first action fixed per job; after the start and after every action: if needs_save() is false the file equals what saving would write (tool-written files: byte-identical; hand-edited files: same values and same user/default status when loaded fresh); right after a save and right after loading a tool-written file needs_save() is false",
         "thorough": "3 actions, more trees",
     },
-    "outside": ["Textual widgets", "deprecated-name entries in the initial file (covered by C11)", "longer sequences"],
+    "outside": ["Textual widgets", "longer sequences"],
     "stubs": ["stand-in for MenuConfigApp's self (vk/ui.py)", "memfs"],
 }
 BUDGET = {"quick": 240, "thorough": 1100}
@@ -30,7 +30,7 @@ def _would_write(k):
 
 
 def _semantic_equal(tid, fs, k):
-    k2 = ST.build(tid)
+    k2 = ST.build(tid, renames=bool(ST.rename_files(tid)))
     k2.load_config(CONF)
     for s in k.unique_defined_syms:
         s2 = k2.syms[s.name]
@@ -49,7 +49,8 @@ def session(ctx, *args):
     fs = MemFS()
     fs.dirs.add("/m/proj")
     install_fs(fs, K)
-    k0 = ST.build(tid)
+    ren = bool(ST.rename_files(tid))
+    k0 = ST.build(tid, renames=ren)
     ST.apply_state(k0, slots, vals)
     init = ctx["init"]
     tool_written = False
@@ -61,6 +62,19 @@ def session(ctx, *args):
             text = "".join(line + "\n" for line in text.split("\n") if line and line != "# default:" and not (line.startswith("#") and not line.endswith("is not set")))
         elif init == "unknown":
             text += "CONFIG_NOT_IN_TREE=y\n"
+        elif init == "deprecated":
+            # hand-edited: one assignment is given through a deprecated name instead of the new one
+            from .c07 import rename_map
+
+            lines = text.split("\n")
+            for old, (new, inv) in rename_map(tid).items():
+                hit = [i for i, line in enumerate(lines) if line.startswith("CONFIG_%s=" % new)]
+                if hit and not inv:
+                    lines[hit[0]] = lines[hit[0]].replace("CONFIG_%s=" % new, "CONFIG_%s=" % old, 1)
+                    if hit[0] > 0 and lines[hit[0] - 1] == "# default:":
+                        lines[hit[0] - 1] = ""
+                    break
+            text = "\n".join(lines)
         elif init == "dup":
             first = [line for line in text.split("\n") if line.startswith("CONFIG_")]
             if first:
@@ -84,7 +98,7 @@ def session(ctx, *args):
             nxt.set_value(2)
             break
     k3.write_config("/m/proj/other2")
-    k = ST.build(tid)
+    k = ST.build(tid, renames=ren)
     st, app = ui.start(k, fs)
     nodes = list(k.node_iter())
 
@@ -129,10 +143,11 @@ def jobs(tier, seed, excluded=()):
         trees, nact, tmo, budget = ["T15", "T07", "T06", "T09", "T08", "T03", "T01"] + ["F:menuconfig/kconfigs/Kconfig." + x for x in ("default_value_changed", "indirect_sets", "choice_default", "pilot_all_scalars")], 3, 500, 3
         inits = ["tool", "absent", "nomarks", "unknown", "dup"]
     out = []
+    trees = trees + ["T13b"]
     firsts = [1, 2, 4, 5, 8, 9, 0, 7]  # Enter, Space, y/n, reset, load, save, move, jump
     for tid in trees:
         nn = len(list(ST.build(tid).node_iter()))
-        for init in inits:
+        for init in (inits + ["deprecated"] if ST.rename_files(tid) else inits):
             fl = firsts if (init == "tool" or tier == "thorough") else rng.sample(firsts, 2)
             for first in fl:
                 ep, epre = [], []
